@@ -239,10 +239,10 @@ def coq_N(n):
 
 def coq_nat(n):
     """unary numerals above a few thousand make coqc complain; write them as products"""
-    if n <= 2000:
+    if n <= 500:
         return str(n)
     q, r = divmod(n, 1000)
-    return f"({q} * 1000 + {r})"
+    return f"({q} * kilo + {r})"
 
 
 def registered(project):
@@ -271,10 +271,21 @@ def graph_record(world, gobj, roots):
 
 def graph_term(r):
     lims = coq_list(f"({coq_nat(d)}, {coq_N(n)})" for d, n in r["lims"])
-    edges = coq_list(f"mkE {t} {h} {coq_bool(d)} {coq_str(lab)}" for t, h, d, lab in r["edges"])
-    labels = coq_list(f"({n}, {coq_str(lab)})" for n, lab in r["labels"])
+    edges = coq_list((f"mkE {t} {h} {coq_bool(d)} {coq_str(lab)}" if lab else f"E{'d' if d else 's'} {t} {h}")
+                     for t, h, d, lab in r["edges"])
     return (f"(mkQ {r['cls']} {nats(r['roots'])} {lims}, "
-            f"mkI {nats(r['nodes'])} {labels} {edges} {coq_opt(r['trunc'], str)} {nats(r['hop'])})")
+            f"mkI {nats(r['nodes'])} {edges} {coq_opt(r['trunc'], str)} {nats(r['hop'])})")
+
+
+def label_table(runs):
+    """(labels term, inconsistencies): one label per node over all graphs of the case"""
+    tab, bad = {}, []
+    for recs in runs:
+        for r in recs:
+            for n, lab in r["labels"]:
+                if tab.setdefault(n, lab) != lab:
+                    bad.append(f"{r['ident']}: node {n} labelled {lab!r} here and {tab[n]!r} elsewhere")
+    return coq_list(f"({n}, {coq_str(lab)})" for n, lab in sorted(tab.items())), bad
 
 
 def collect(project, log):
